@@ -7,9 +7,13 @@ CFG_DEFAULTS = dict(kind="Map", mode="pure", forked=False, par=1, cap=0, inputs=
                     interval=1, monoid="sum", step="succ", seed=1, gate=False, stderr=False)
 
 
-def norm_cfg(c):
+def norm_cfg(c, nested=False):
     d = dict(CFG_DEFAULTS)
     d.update({k: v for k, v in c.items() if v is not None})
+    if nested:
+        d.pop("stages", None)
+    else:
+        d["stages"] = [norm_cfg(st, nested=True) for st in (c.get("stages") or [])]
     return d
 
 
